@@ -58,4 +58,57 @@ Section NodupOps.
   Proof. rewrite <- W_nodup, <- W_nodup_list. destruct (level_nodup fuel) as (_ & _ & H & _). exact (H l r). Qed.
   Theorem union_of_nodup fuel l r : union_of vmerge vcontains perm fuel l = Ret r -> forallb nodup_vals l = true -> nodup_vals r = true.
   Proof. rewrite <- W_nodup, <- W_nodup_list. destruct (level_nodup fuel) as (_ & _ & _ & H & _). exact (H l r). Qed.
+
+  (* only() / exclude(): leaves are copied or replaced by Any, compounds are rebuilt by of() *)
+  Lemma mapM_nodup {A} (g : A -> pyres marker) (P : A -> Prop) l : (forall x r, P x -> g x = Ret r -> nodup_vals r = true) ->
+    (forall x, In x l -> P x) -> forall rs, mapM g l = Ret rs -> forallb nodup_vals rs = true.
+  Proof.
+    intros Hg. induction l as [|x l IH]; intros Hp rs H; cbn [mapM] in H; [injection H as <-; reflexivity|].
+    destruct (g x) as [y| |] eqn:E; try discriminate. cbn [bind] in H. destruct (mapM g l) as [ys| |] eqn:Es; try discriminate. cbn [bind] in H.
+    injection H as <-. cbn [forallb]. rewrite (Hg x y (Hp x (or_introl eq_refl)) E), (IH (fun z Hz => Hp z (or_intror Hz)) ys eq_refl). reflexivity.
+  Qed.
+  Lemma nodup_children l : forallb nodup_vals l = true -> forall x, In x l -> nodup_vals x = true.
+  Proof. intros H. apply forallb_forall. exact H. Qed.
+
+  Theorem monly_nodup names fuel : forall m r, monly vmerge vcontains perm fuel names m = Ret r -> nodup_vals m = true -> nodup_vals r = true.
+  Proof.
+    induction fuel as [|f IH]; intros m r H N; [discriminate|]. cbn [monly] in H.
+    assert (Leaf : forall s, (if mem_str (single_name s) names then Ret s else Ret MAny) = Ret r -> nodup_vals s = true -> nodup_vals r = true).
+    { intros s E Ns. destruct (mem_str (single_name s) names); injection E as <-; [exact Ns | reflexivity]. }
+    destruct m as [| |a|n vs|n vs|l|l]; try (injection H as <-; exact N); try exact (Leaf _ H N).
+    - destruct (mapM (monly vmerge vcontains perm f names) l) as [ms| |] eqn:Em; try discriminate. cbn [bind] in H.
+      apply (multi_of_nodup f ms r H). apply (mapM_nodup _ (fun x => nodup_vals x = true) l (fun x y Nx E => IH x y E Nx) (nodup_children l N) ms Em).
+    - destruct (mapM (monly vmerge vcontains perm f names) l) as [ms| |] eqn:Em; try discriminate. cbn [bind] in H.
+      apply (union_of_nodup f ms r H). apply (mapM_nodup _ (fun x => nodup_vals x = true) l (fun x y Nx E => IH x y E Nx) (nodup_children l N) ms Em).
+  Qed.
+
+  Lemma mapM_opt_nodup (g : marker -> pyres (option marker)) l : (forall x o, In x l -> g x = Ret (Some o) -> nodup_vals o = true) ->
+    forall new, mapM g l = Ret new -> forallb nodup_vals (flat_map (fun o => match o with Some x => [x] | None => [] end) new) = true.
+  Proof.
+    induction l as [|x l IH]; intros Hg new H; cbn [mapM] in H; [injection H as <-; reflexivity|].
+    destruct (g x) as [y| |] eqn:E; try discriminate. cbn [bind] in H. destruct (mapM g l) as [ys| |] eqn:Es; try discriminate. cbn [bind] in H.
+    injection H as <-. cbn [flat_map]. rewrite forallb_app, (IH (fun z o Hz => Hg z o (or_intror Hz)) ys eq_refl), andb_true_r.
+    destruct y as [o|]; [|reflexivity]. cbn [forallb]. rewrite (Hg x o (or_introl eq_refl) E). reflexivity.
+  Qed.
+
+  Theorem mexclude_nodup name fuel : forall m r, mexclude vmerge vcontains perm fuel name m = Ret r -> nodup_vals m = true -> nodup_vals r = true.
+  Proof.
+    induction fuel as [|f IH]; intros m r H N; [discriminate|]. cbn [mexclude] in H.
+    assert (Leaf : forall s, (if str_eqb (single_name s) name then Ret MAny else Ret s) = Ret r -> nodup_vals s = true -> nodup_vals r = true).
+    { intros s E Ns. destruct (str_eqb (single_name s) name); injection E as <-; [reflexivity | exact Ns]. }
+    destruct m as [| |a|n vs|n vs|l|l]; try (injection H as <-; exact N); try exact (Leaf _ H N).
+    - match type of H with (bind (mapM ?g l) _ = _) => destruct (mapM g l) as [new| |] eqn:Em; try discriminate; cbn [bind] in H;
+        apply (multi_of_nodup f _ r H); apply (mapM_opt_nodup g l); [|exact Em] end.
+      intros x o Hx E. cbn beta in E. destruct (is_single x && str_eqb (single_name x) name); [discriminate|].
+      destruct (mexclude vmerge vcontains perm f name x) as [y| |] eqn:Ex; try discriminate. cbn [bind] in E.
+      destruct (is_empty y); [discriminate|]. injection E as <-. exact (IH x y Ex (nodup_children l N x Hx)).
+    - match type of H with (bind (mapM ?g l) _ = _) => destruct (mapM g l) as [new| |] eqn:Em; try discriminate; cbn [bind] in H;
+        pose proof (mapM_opt_nodup g l) as K end.
+      assert (Kn : forallb nodup_vals (flat_map (fun o => match o with Some x => [x] | None => [] end) new) = true).
+      { apply K; [|exact Em]. intros x o Hx E. cbn beta in E. destruct (is_single x && str_eqb (single_name x) name); [discriminate|].
+        destruct (mexclude vmerge vcontains perm f name x) as [y| |] eqn:Ex; try discriminate. cbn [bind] in E.
+        injection E as <-. exact (IH x y Ex (nodup_children l N x Hx)). }
+      destruct (flat_map (fun o => match o with Some x => [x] | None => [] end) new) as [|m0 ms] eqn:Ef; [injection H as <-; reflexivity|].
+      exact (union_of_nodup f (m0 :: ms) r H Kn).
+  Qed.
 End NodupOps.
